@@ -506,6 +506,14 @@ class NoPanic:
         if n:
             key = "%s#%d" % (key, n + 1)
         rec = {"key": key, "fn": fn.path, "bb": bb, "kind": kind, "status": status, "detail": detail, "loc": fn.loc(bb), "trivial": trivial}
+        if status == "open" and str(fn.blocks[bb].term.get("mac", "")).startswith("debug_assert"):
+            # debug_assert!/debug_assert_eq!/.. (and the arithmetic inside their conditions): compiled only under cfg(debug_assertions).  They are
+            # the author's statement of an invariant, not behaviour of the shipped (release) server; what could not be proved is assumed and counted.
+            rec["status"] = "typed"
+            rec["detail"] = "debug-only assertion (cfg(debug_assertions)), not proved: " + detail
+            self.ctx.extra["debug_assertions_assumed"] = self.ctx.extra.get("debug_assertions_assumed", 0) + 1
+            self.records.append(rec)
+            return rec
         if status == "open":
             # audited entries are matched by their base key with multiplicity (k entries cover k open sites of that shape), so that a proved or
             # newly inserted sibling site does not shift the ordinals
